@@ -310,8 +310,15 @@ def mon_c10(run, case, stmts):
             if i:
                 anc_ids.append(i)
             pp = parent_path(pp)
+        u0 = fh["upd"]
+        my_n = next((x["n"] for x in b.log if x["inv"] == e["inv"] and x["upd"]["Id"] == u0["Id"] and x["upd"]["Action"] == u0["Action"]), None)
         for a in anc_ids:
             if a in done_at and done_at[a][1] == e["inv"] and fh["clk"] > done_at[a][0]:
+                # overlapping hand-over calls: the operation began before the completion if its record reached the
+                # backend before the completion record did
+                anc_n = next((x["n"] for x in b.log if x["upd"]["Id"] == a and x["upd"]["Action"] in ("SUCCEED", "FAIL")), None)
+                if anc_n is None or my_n is None or my_n < anc_n:
+                    break
                 run.v("C10", "orphan_user_function_entered", e["kind"],
                       f"{e['path']}: operation first handed over at clk {fh['clk']} and its user function entered (clk {e['clk']}) after ancestor {b.path_of.get(a)} was handed its completion record (clk {done_at[a][0]})")
                 break
